@@ -327,8 +327,12 @@ def rule_r2(p, res):
         t = ifs[0].test
         ok = isinstance(t, ast.Call) and norm(t) == "isinstance(%s, self.%s)" % (f.params[1], gate)
         r.check(ok, f, ifs[0], "%s must dispatch on isinstance(%s, self.%s)" % (f.short, f.params[1], gate))
-        body_calls = [norm(c.func) for c in calls_in(ast.Module(body=ifs[0].body, type_ignores=[]))]
-        r.check(("self." + native) in body_calls, f, ifs[0], "%s must use the native %s when the gate accepts" % (f.short, native))
+        from .. import cfg as _cfg
+        gf = _cfg.build(f.node)
+        nat = [c for c in calls_in(f.node) if norm(c.func) == "self." + native]
+        gate_txt = "isinstance(%s, self.%s)" % (f.params[1], gate)
+        okn = bool(nat) and all((gate_txt, True) in [(str(norm(t_)), pol) for t_, pol in gf.guards(stmt_of(c))] for c in nat)
+        r.check(okn, f, ifs[0], "%s must use the native %s when the gate accepts" % (f.short, native))
         if "inplace" in name:
             r.check(any(isinstance(n, ast.Raise) for n in ifs[0].orelse), f, ifs[0], "%s must refuse partners outside the gate" % f.short)
         else:
